@@ -94,6 +94,9 @@ pub enum Ev {
         party: u32,
         key: Vec<u8>,
         nonce: Vec<u8>,
+        /// sealed with additional authenticated data: the content and the sender data of a PrivateMessage are, the
+        /// GroupInfo of a Welcome (under the welcome key) is not
+        with_aad: bool,
     },
 }
 
@@ -588,6 +591,7 @@ impl CipherSuiteProvider for SimSuite {
                     party: self.ctx.party,
                     key: key.to_vec(),
                     nonce: nonce.to_vec(),
+                    with_aad: aad.is_some(),
                 });
             }
         });
